@@ -653,6 +653,8 @@ type Gate struct {
 	Name   string
 	Accept EdgeSet // edges on which the test is known to have passed
 	Sites  []string
+	// PassThrough: return instructions whose success implies the test passed
+	PassThrough map[ssa.Instruction]bool
 }
 
 // Atom is an indivisible boolean value (comparison, call result, flag) together
@@ -784,7 +786,41 @@ func FindGate(p *Prog, fn *ssa.Function, name string, m func(c Cmp, isCmp bool, 
 }
 
 // ErrNilGate: the accept edge of `callee(...) == nil` tests (error results).
+// A return statement that hands the callee's error on unchanged
+// (`return callee(...)`) is a pass-through: succeeding there means the callee
+// returned nil, so such a return never counts as reached without the test.
 func ErrNilGate(p *Prog, fn *ssa.Function, callee string) *Gate {
+	g := errNilGate(p, fn, callee)
+	g.PassThrough = map[ssa.Instruction]bool{}
+	res := fn.Signature.Results()
+	if res.Len() > 0 {
+		ei := res.Len() - 1
+		Instrs(fn, func(in ssa.Instruction) {
+			ret, ok := in.(*ssa.Return)
+			if !ok || len(ret.Results) <= ei {
+				return
+			}
+			v := Resolve(ret.Results[ei])
+			if u := UniqueReaching(fn, v); u != nil {
+				v = u
+			}
+			call, idx := CallOf(v)
+			if call == nil || CalleeName(call.Common()) != callee {
+				return
+			}
+			if idx == call.Common().Signature().Results().Len()-1 || call.Common().Signature().Results().Len() == 1 {
+				g.PassThrough[in] = true
+				if len(g.Accept) == 0 {
+					// the only test is the caller's own test of this function's result
+					g.Sites = append(g.Sites, p.Pos(in.Pos())+"(pass-through)")
+				}
+			}
+		})
+	}
+	return g
+}
+
+func errNilGate(p *Prog, fn *ssa.Function, callee string) *Gate {
 	return FindGate(p, fn, "err==nil:"+Short(callee), func(c Cmp, isCmp bool, _ ssa.Value) (bool, bool) {
 		if !isCmp || (c.Op != token.EQL && c.Op != token.NEQ) {
 			return false, false
@@ -842,8 +878,11 @@ func CallCmpGate(p *Prog, fn *ssa.Function, callee string, acceptEq bool, k int6
 
 // Union merges gates into one disjunctive cut.
 func Union(name string, gs ...*Gate) *Gate {
-	g := &Gate{Name: name, Accept: EdgeSet{}}
+	g := &Gate{Name: name, Accept: EdgeSet{}, PassThrough: map[ssa.Instruction]bool{}}
 	for _, x := range gs {
+		for k := range x.PassThrough {
+			g.PassThrough[k] = true
+		}
 		for e := range x.Accept {
 			g.Accept[e] = true
 		}
@@ -856,6 +895,10 @@ func Union(name string, gs ...*Gate) *Gate {
 // instruction passes an accept edge of g, never crossing a stop instruction.
 // It returns ok=false and a witness if some path avoids the gate.
 func MustPass(fn *ssa.Function, start ssa.Instruction, g *Gate, target, stop func(ssa.Instruction) bool, assume map[string]string) (ok bool, witness []string) {
+	if len(g.PassThrough) > 0 {
+		inner := target
+		target = func(in ssa.Instruction) bool { return inner(in) && !g.PassThrough[in] }
+	}
 	s := &Search{Fn: fn, Cut: func(e Edge) bool { return g.Accept[e] }, Stop: stop, Target: target, Assume: assume}
 	found, w := s.Run(start)
 	return !found, w
